@@ -353,6 +353,9 @@ type LogoutReq struct {
 	NameID                    string
 	NameIDFormat              string
 	NoNameID                  bool
+	NoIssuer                  bool   // leave the Issuer element out altogether
+	SPNameQualifier           string // attributes of the NameID (and, with an empty Issuer, of the Issuer element)
+	NameQualifier             string
 	OtherPrincipal            string // with NoNameID: "EncryptedID" or "BaseID" - the other forms of principal SAML core 3.7.1 allows
 	SessionIndex              []string
 	Style                     Style
@@ -372,11 +375,26 @@ func (l *LogoutReq) Node() *Node {
 	if l.Reason != "" {
 		root.Set("Reason", l.Reason)
 	}
-	root.Add(s.a("Issuer").SetText(l.Issuer))
+	if !l.NoIssuer {
+		iss := s.a("Issuer").SetText(l.Issuer)
+		if l.Issuer == "" && l.SPNameQualifier != "" {
+			iss.Set("SPNameQualifier", l.SPNameQualifier)
+		}
+		if l.Issuer == "" && l.NameQualifier != "" {
+			iss.Set("NameQualifier", l.NameQualifier)
+		}
+		root.Add(iss)
+	}
 	if !l.NoNameID {
 		n := s.a("NameID").SetText(l.NameID)
 		if l.NameIDFormat != "" {
 			n.Set("Format", l.NameIDFormat)
+		}
+		if l.SPNameQualifier != "" {
+			n.Set("SPNameQualifier", l.SPNameQualifier)
+		}
+		if l.NameQualifier != "" {
+			n.Set("NameQualifier", l.NameQualifier)
 		}
 		root.Add(n)
 	} else if l.OtherPrincipal == "EncryptedID" {
